@@ -116,7 +116,8 @@ theorem decode_depth_irrelevant (acceptExt : Bool) (d' d : Nat) (bs : List Nat) 
 in key position, empty innermost collections): with `DEPTH_LIMIT = 1024`,
 if `v` has at most 1023 nested collections the calculator, the decoder, the
 slice loop and the reader loop all accept it; if it has 1024 or more, the
-decoder fails and the translation fails in both modes with nothing translated. -/
+decoder fails with exactly `DepthLimitExceeded` (no other error can come
+first) and the translation fails in both modes with nothing translated. -/
 theorem msgpack_depth_boundary_any_spelling (bs : List Nat) (v : MVal) (d' : Nat)
     (hsp : decodeG false d' bs = .ok (v, [])) :
     (v.nesting ≤ 1023 →
@@ -124,17 +125,18 @@ theorem msgpack_depth_boundary_any_spelling (bs : List Nat) (v : MVal) (d' : Nat
       sliceLoop false depthLimit depthLimit bs = ([v], .ok) ∧
       readerLoop false depthLimit bs = ([v], .ok)) ∧
     (1024 ≤ v.nesting →
-      (∃ e, decode bs depthLimit = .error e) ∧
-      (readerLoop false depthLimit bs).2 ≠ .ok ∧
+      decode bs depthLimit = .error .depthLimitExceeded ∧
+      readerLoop false depthLimit bs = ([], .decErr .depthLimitExceeded) ∧
       (sliceLoop false depthLimit depthLimit bs).2 ≠ .ok ∧
-      (readerLoop false depthLimit bs).1 = [] ∧
       (sliceLoop false depthLimit depthLimit bs).1 = []) := by
   constructor
   · intro hn
     exact accept_within false depthLimit (by decide) hsp (Or.inl (by unfold depthLimit; omega))
   · intro hn
-    exact reject_beyond false depthLimit (by decide) hsp
-      (by unfold MVal.Within depthLimit; omega)
+    have hw : ¬ v.Within depthLimit := by unfold MVal.Within depthLimit; omega
+    have h1 := reject_beyond false depthLimit (by decide) hsp hw
+    have h2 := reject_beyond_depth false depthLimit (by decide) hsp hw
+    exact ⟨h2.1, h2.2, h1.2.2.1, h1.2.2.2.2⟩
 
 /-- The same for explicit nesting shapes.  A shape is a list of wrappers, each
 a one-element array, a map with the inner value in value position, or a map
@@ -154,8 +156,8 @@ theorem msgpack_depth_boundary (ws : List Wrap) (hws : ∀ w ∈ ws, w.Ok false)
       sliceLoop false depthLimit depthLimit bs = ([v], .ok) ∧
       readerLoop false depthLimit bs = ([v], .ok)) ∧
     (1024 ≤ ws.length + cv.nesting →
-      (∃ e, decode bs depthLimit = .error e) ∧
-      (readerLoop false depthLimit bs).2 ≠ .ok ∧
+      decode bs depthLimit = .error .depthLimitExceeded ∧
+      readerLoop false depthLimit bs = ([], .decErr .depthLimitExceeded) ∧
       (sliceLoop false depthLimit depthLimit bs).2 ≠ .ok) := by
   intro bs v
   have hspell := nest_spells false ws hws (encode cv) cv 2 (by omega)
